@@ -107,6 +107,12 @@ pub enum Ty {
     Param(String),
     /// not known yet (`None` without context); joins with everything
     Infer,
+    /// a struct field whose type is outside the subset (slices, PhantomData, ...): only an error when used
+    Opaque(String),
+    /// a local closure bound by `let`
+    Fn(Vec<Ty>, Box<Ty>),
+    /// a type of the `extern` table: an opaque Coq type with whitelisted accessor methods
+    Extern(String),
 }
 
 impl Ty {
@@ -126,6 +132,9 @@ impl Ty {
             Ty::RangeIncl(t) => format!("RangeInclusive<{}>", t.show()),
             Ty::Param(p) => p.clone(),
             Ty::Infer => "_".into(),
+            Ty::Opaque(w) => format!("<unsupported type: {}>", w),
+            Ty::Extern(n) => n.clone(),
+            Ty::Fn(a, r) => format!("fn({}) -> {}", a.iter().map(|t| t.show()).collect::<Vec<_>>().join(", "), r.show()),
         }
     }
     pub fn is_int(&self) -> bool {
@@ -142,6 +151,7 @@ pub fn join(a: &Ty, b: &Ty) -> R<Ty> {
         (Ty::Bool, Ty::Bool) | (Ty::Unit, Ty::Unit) => a.clone(),
         (Ty::Adt(x), Ty::Adt(y)) if x == y => a.clone(),
         (Ty::Param(x), Ty::Param(y)) if x == y => a.clone(),
+        (Ty::Extern(x), Ty::Extern(y)) if x == y => a.clone(),
         (Ty::Option(x), Ty::Option(y)) => Ty::Option(Box::new(join(x, y)?)),
         (Ty::Range(x), Ty::Range(y)) => Ty::Range(Box::new(join(x, y)?)),
         (Ty::RangeIncl(x), Ty::RangeIncl(y)) => Ty::RangeIncl(Box::new(join(x, y)?)),
@@ -215,6 +225,9 @@ pub struct FnInfo {
     pub trait_name: Option<String>,
     pub self_kind: SelfKind,
     pub const_generics: Vec<(String, Ty)>,
+    /// associated constants of generic type parameters used in the body (`R::BITS_PER_PIXEL`): abstracted
+    /// as leading parameters of the generated definition
+    pub assoc_params: Vec<(String, Ty)>,
     pub params: Vec<(String, Ty)>,
     pub ret: Ty,
 }
@@ -227,8 +240,19 @@ pub struct ConstInfo {
     pub ty: Ty,
 }
 
+#[derive(Clone, Debug)]
+pub struct ExternInfo {
+    pub name: String,
+    pub coq_ty: String,
+    /// method name -> (return type, Coq function applied to the receiver)
+    pub methods: Vec<(String, Ty, String)>,
+}
+
 #[derive(Default)]
 pub struct Tables {
+    pub externs: BTreeMap<String, ExternInfo>,
+    /// type of an associated constant of a generic type parameter, by constant name
+    pub assoc_tys: BTreeMap<String, Ty>,
     pub adts: BTreeMap<String, Adt>,
     pub fns: Vec<FnInfo>,
     pub consts: Vec<ConstInfo>,
@@ -256,6 +280,12 @@ impl Tables {
             }
             Ty::Range(t) | Ty::RangeIncl(t) => format!("({} * {})", self.coq_ty(t)?, self.coq_ty(t)?),
             Ty::Infer => "_".into(),
+            Ty::Opaque(w) => return Err(format!("unsupported type: {}", w)),
+            Ty::Fn(a, r) => format!("({} -> {})", a.iter().map(|t| self.coq_ty(t)).collect::<R<Vec<_>>>()?.join(" -> "), self.coq_ty(r)?),
+            Ty::Extern(n) => match self.externs.get(n) {
+                Some(e) => e.coq_ty.clone(),
+                None => return Err(format!("extern type `{}` unknown", n)),
+            },
             Ty::Param(p) => match self.tyvars.get(p) {
                 Some(c) => c.clone(),
                 None => return Err(format!("generic type parameter `{}` has no `tyvar` mapping", p)),
